@@ -422,8 +422,18 @@ class Interp:
             base = self.ev(t.value, st)
             idx = self.ev_index(t.slice, st)
             cur = self.subscript(base, idx, t, st)
-            self.binop(s.op, cur, rhs, st, s)
+            res = self.binop(s.op, cur, rhs, st, s)
             self.write_inplace(base, opname, (t.slice, idx), rhs, st, s, cur_val=cur)
+            if isinstance(t.value, ast.Name) and t.value.id in st.env and not base.al and base.kind in ("arr", "unknown"):
+                curv = st.env[t.value.id]
+                colsel = self.np.column_store(curv, idx, res)
+                if colsel is not None:
+                    d = colsel[0]
+                else:
+                    d, conflict = dim_unify(curv.dim, res.dim)
+                    if conflict:
+                        d = TOP
+                st.env[t.value.id] = curv.copy(dim=d, deps=curv.deps | res.deps, pdeps=curv.pdeps | res.pdeps)
             return st
         return st
 
@@ -697,7 +707,17 @@ class Interp:
             # local containers: remember what was stored
             if isinstance(target.value, ast.Name) and target.value.id in st.env:
                 cur = st.env[target.value.id]
-                if not cur.al:
+                if not cur.al and cur.kind in ("dict", "list", "set"):
+                    newel = join_vals(cur.elem, v)
+                    mapping = cur.mapping
+                    if cur.kind == "dict" and idx.has_const() and isinstance(idx.const, str):
+                        mapping = dict(mapping or {})
+                        mapping[idx.const] = v
+                    elif cur.kind == "dict":
+                        mapping = None
+                    st.env[target.value.id] = cur.copy(deps=cur.deps | v.deps, pdeps=cur.pdeps | v.pdeps, elem=newel,
+                                                       mapping=mapping, items=None if cur.kind == "list" else cur.items)
+                elif not cur.al:
                     colsel = self.np.column_store(cur, idx, v)
                     if colsel is not None:
                         d, conflict = colsel
